@@ -581,6 +581,39 @@ var Catalogue = []Mutation{
 			return false
 		})
 	}},
+	{"EXIT-TOO-YOUNG", "pabcd", func(m *MutCtx) bool {
+		// an active validator that has not yet served SHARD_COMMITTEE_PERIOD epochs; prefer one that went
+		// through the activation queue (eligibility epoch earlier than activation epoch)
+		sp := m.sp()
+		cur := sp.CurrentEpoch(m.Pre)
+		best, bestQueued := -1, false
+		for vi := range m.Pre.Validators {
+			v := &m.Pre.Validators[vi]
+			if !refspec.IsActive(v, cur) || v.ExitEpoch != Far || cur >= v.ActivationEpoch+sp.P.SHARD_COMMITTEE_PERIOD {
+				continue
+			}
+			if _, ok := m.keyOfValidator(uint64(vi)); !ok {
+				continue
+			}
+			queued := v.ActivationEligibilityEpoch < v.ActivationEpoch
+			if best < 0 || (queued && !bestQueued) {
+				best, bestQueued = vi, queued
+			}
+		}
+		if best < 0 {
+			return false
+		}
+		b := &m.B.Message.Body
+		e := refspec.SignedVoluntaryExit{Message: refspec.VoluntaryExit{Epoch: cur, ValidatorIndex: uint64(best)}}
+		k, _ := m.keyOfValidator(uint64(best))
+		m.signExit(&e, k, m.exitDomain(&e.Message))
+		if len(b.VoluntaryExits) > 0 {
+			b.VoluntaryExits[m.Pr.n(len(b.VoluntaryExits))] = e
+		} else {
+			b.VoluntaryExits = append(b.VoluntaryExits, e)
+		}
+		return true
+	}},
 	// ---------------------------------------------------------------- bls changes
 	{"BLSCH-PUBKEY-HASH", "cd", func(m *MutCtx) bool {
 		return mutBLS(m, func(c *refspec.SignedBLSToExecutionChange) bool {
